@@ -8,6 +8,9 @@ use super::*;
 pub(crate) struct S2Cfg {
     pub eth: bool,
     pub ip_mtu: usize,
+    /// reduced alphabet (for the deepest run): sends = udp0 x {2,3 fragments}, udp1 x {unfragmented,
+    /// 3 fragments}, raw x {3 fragments}; echo request with a 3-fragment reply only
+    pub core: bool,
 }
 
 #[derive(Clone, Debug, PartialEq, Eq)]
@@ -41,6 +44,7 @@ pub(crate) struct S2 {
     stale_seen: usize,
     quiesced: bool,
     pub refused_sends: u32,
+    core: bool,
 }
 
 impl S2 {
@@ -175,6 +179,74 @@ fn strip_digest(d: &str) -> String {
     s
 }
 
+/// Canonicalise the Debug image of the socket set: inside every `RingBuffer { storage: Owned([..]),
+/// read_at: R, length: L }` the elements outside the allocated window [R, R+L) (mod capacity) are
+/// blanked. Argument: smoltcp's RingBuffer/PacketBuffer never read unallocated elements back
+/// (enqueue hands them out as `&mut` and both `udp::Socket::send_slice` and
+/// `raw::Socket::send_slice` overwrite the whole slice; metadata slots are assigned on enqueue),
+/// so leftovers of datagrams that already left the socket cannot influence future behaviour.
+/// `read_at` and `length` (which decide contiguity and therefore whether a send is accepted) stay.
+fn canon_sockets(s: &str) -> String {
+    const OPEN: &str = "RingBuffer { storage: Owned([";
+    let b = s.as_bytes();
+    let mut out = String::with_capacity(s.len());
+    let mut pos = 0;
+    while let Some(p) = s[pos..].find(OPEN) {
+        let start = pos + p + OPEN.len();
+        out.push_str(&s[pos..start]);
+        // split the element list at top level until the matching "])"
+        let mut depth = 0i32;
+        let mut i = start;
+        let mut el_start = start;
+        let mut els: Vec<(usize, usize)> = vec![];
+        loop {
+            let c = b[i];
+            match c {
+                b'(' | b'[' | b'{' => depth += 1,
+                b')' | b'}' => depth -= 1,
+                b']' => {
+                    if depth == 0 {
+                        if i > el_start {
+                            els.push((el_start, i));
+                        }
+                        break;
+                    }
+                    depth -= 1;
+                }
+                b',' if depth == 0 => {
+                    els.push((el_start, i));
+                    el_start = i + 2; // ", "
+                }
+                _ => {}
+            }
+            i += 1;
+        }
+        // i at the closing ']' ; then "), read_at: R, length: L }"
+        let tail = &s[i..];
+        let num = |key: &str| -> usize {
+            let k = tail.find(key).unwrap() + key.len();
+            let e = tail[k..].find(|c: char| !c.is_ascii_digit()).unwrap();
+            tail[k..k + e].parse().unwrap()
+        };
+        let (r, l) = (num("read_at: "), num("length: "));
+        let cap = els.len();
+        for (n, (a, e)) in els.iter().enumerate() {
+            if n > 0 {
+                out.push(',');
+            }
+            let live = cap > 0 && ((n + cap - r % cap.max(1)) % cap) < l;
+            if live {
+                out.push_str(&s[*a..*e]);
+            } else {
+                out.push('-');
+            }
+        }
+        pos = i;
+    }
+    out.push_str(&s[pos..]);
+    out
+}
+
 impl Harness for S2 {
     type Cfg = S2Cfg;
     type Ev = Ev;
@@ -185,7 +257,7 @@ impl Harness for S2 {
         let h1 = net.add_udp(UDP_PORT0 + 1, 1, 32, 2, 2 * 256);
         let h2 = net.add_raw(1, 32, 2, 2 * 256);
         let tr = Tracker::new(cfg.eth, net.dev_mtu());
-        S2 { net, h: [h0, h1, h2], tr, stale: vec![0; smoltcp::config::FRAGMENTATION_BUFFER_SIZE.max(64)], stale_seen: 0, quiesced: false, refused_sends: 0 }
+        S2 { net, h: [h0, h1, h2], tr, stale: vec![0; smoltcp::config::FRAGMENTATION_BUFFER_SIZE.max(64)], stale_seen: 0, quiesced: false, refused_sends: 0, core: cfg.core }
     }
     fn enabled(&self) -> Vec<(Ev, u32)> {
         if self.quiesced {
@@ -194,13 +266,18 @@ impl Harness for S2 {
         let mut v = vec![(Ev::Poll, 0), (Ev::Egress, 0)];
         for sock in 0..3u8 {
             for size in 0..3u8 {
+                if self.core && !matches!((sock, size), (0, 1) | (0, 2) | (1, 0) | (1, 2) | (2, 2)) {
+                    continue;
+                }
                 v.push((Ev::Send { sock, size }, 0));
             }
         }
         if !self.net.dev.rx.is_empty() {
             v.push((Ev::Ingress, 0));
         } else {
-            v.push((Ev::Echo(1), 0));
+            if !self.core {
+                v.push((Ev::Echo(1), 0));
+            }
             v.push((Ev::Echo(2), 0));
         }
         for n in 0..2u8 {
@@ -288,7 +365,7 @@ impl Harness for S2 {
     }
     fn fingerprint(&self) -> u128 {
         let d = strip_digest(&self.net.iface.verif_digest());
-        let s = format!("{:?}", self.net.sockets);
+        let s = canon_sockets(&format!("{:?}", self.net.sockets));
         fp128(&(d, s, self.net.dev.tx_budget, &self.net.dev.rx, self.model_string(), self.quiesced))
     }
     fn outcome(&self) -> String {
@@ -297,22 +374,27 @@ impl Harness for S2 {
 }
 
 fn cfg_of(name: &str) -> Option<S2Cfg> {
-    // "s2/<medium>/<mtu>"
+    // "s2/<medium>/<mtu>/<full|core>"
     let p: Vec<&str> = name.split('/').collect();
-    if p.len() != 3 || p[0] != "s2" {
+    if p.len() != 4 || p[0] != "s2" {
         return None;
     }
-    Some(S2Cfg { eth: p[1] == "ethernet", ip_mtu: p[2].parse().ok()? })
+    Some(S2Cfg { eth: p[1] == "ethernet", ip_mtu: p[2].parse().ok()?, core: p[3] == "core" })
 }
 
 pub(crate) fn run_s2(rep: &mut Report, tier: Tier) {
     let plan: Vec<(S2Cfg, usize)> = match tier {
-        Tier::Quick => vec![(S2Cfg { eth: false, ip_mtu: 100 }, 5), (S2Cfg { eth: true, ip_mtu: 100 }, 4)],
-        Tier::Thorough => vec![(S2Cfg { eth: false, ip_mtu: 100 }, 7), (S2Cfg { eth: true, ip_mtu: 100 }, 6), (S2Cfg { eth: false, ip_mtu: 68 }, 5)],
+        Tier::Quick => vec![(S2Cfg { eth: false, ip_mtu: 100, core: false }, 5), (S2Cfg { eth: true, ip_mtu: 100, core: false }, 4)],
+        Tier::Thorough => vec![
+            (S2Cfg { eth: false, ip_mtu: 100, core: false }, 6),
+            (S2Cfg { eth: false, ip_mtu: 100, core: true }, 7),
+            (S2Cfg { eth: true, ip_mtu: 100, core: false }, 5),
+            (S2Cfg { eth: false, ip_mtu: 68, core: false }, 5),
+        ],
     };
     let lim = Limits { max_states: 6_000_000, max_wall_s: if tier == Tier::Quick { 25.0 } else { 420.0 } };
     for (cfg, depth) in plan {
-        let name = format!("s2/{}/{}", medium_name(cfg.eth), cfg.ip_mtu);
+        let name = format!("s2/{}/{}/{}", medium_name(cfg.eth), cfg.ip_mtu, if cfg.core { "core" } else { "full" });
         let mut samples = vec![];
         let mut found = vec![];
         match bfs::<S2>(&name, &cfg, depth, &lim, &mut found, &mut samples) {
@@ -387,3 +469,4 @@ pub(crate) fn replay(harness: &str, art: &Value) -> i32 {
         1
     }
 }
+
